@@ -94,6 +94,16 @@ RemovedExactly(g, r, h, targets) ==
 \* "every node removed by the non-float or same-scale helper that has exactly one float-tensor input is bypassed"
 \* (the count is taken over ALL inputs of the node at the moment it is visited: positional, keyword, nested)
 BypassRule(r, h) == h # "selected" => \A k \in 1 .. Len(r.removed) : r.removed[k][3] = 1 => r.removed[k][2][1] = "n"
+\* ---- analysis.graph_to_dataframe (growth item): the metrics table of a float-only graph -- two rows (forward, then
+\* backward) per node in graph order, the `output` node dropped; tensor type = ["grad_"] + ("w" for a parameter, "x" otherwise);
+\* the value is the node's metric of that direction (<<-1, 1>> = none recorded).  Nodes carry `req` (is a trainable parameter).
+TensorType(dir, req) == (IF dir = "bwd" THEN "grad_" ELSE "") \o (IF req THEN "w" ELSE "x")
+RowsOf(g) ==
+  LET body == SelectSeq(g, LAMBDA n : n.op # "output") IN
+  [k \in 1 .. 2 * Len(body) |->
+     LET n == body[(k + 1) \div 2]   dir == IF k % 2 = 1 THEN "fwd" ELSE "bwd" IN
+     [id |-> n.id, weight |-> n.req, dir |-> dir, type |-> TensorType(dir, n.req), val |-> IF dir = "fwd" THEN n.fwd ELSE n.bwd]]
+
 C19OK(g, r, h, targets) ==
   /\ r.err = ""
   /\ BypassRule(r, h)
